@@ -225,6 +225,14 @@ class Form(Node):
                 else:
                     H = M / (e - 1)
 
+            # The guesses above grow linearly with M, whereas the solution only grows
+            # as its logarithm: for large M they make sinh/cosh overflow. The solution
+            # being bounded by asinh(|M|/e) + 2, start from there (Newton's method is
+            # monotonically convergent from above).
+            H_max = np.arcsinh(abs(M) / e) + 2
+            if abs(H) > H_max:
+                H = np.sign(M) * H_max
+
             def next_H(H, e, M):
                 return H + (M - e * sinh(H) + H) / (e * cosh(H) - 1)
 
